@@ -238,6 +238,50 @@ def _used_as_offset(loop, var):
     return False
 
 
+def _skipped_increment(loop, var, incs, lkey):
+    """every iteration of a block walk advances the offset: no `continue` of this loop may run
+    before the increment, and the increment is not nested under a condition"""
+    last = max(a.lineno for a in incs)
+    for n in ast.walk(loop):
+        if isinstance(n, ast.Continue) and n.lineno < last:
+            p = n
+            owner = None
+            while p is not None and p is not loop:
+                p = getattr(p, "_parent", None)
+                if isinstance(p, (ast.For, ast.While)):
+                    owner = p
+                    break
+            if owner is loop:
+                return Finding("violation", lkey + ":every iteration advances", n,
+                               "a `continue` skips `%s += ..`: after such an iteration every later block is addressed at the previous block's offset" % var,
+                               "the offset is advanced on every path through the loop body", "continue at line %d before the increment" % n.lineno)
+    for a in incs:
+        p = getattr(a, "_parent", None)
+        if p is not loop:
+            # allowed when every arm of the enclosing if/else chain advances the offset by the same stride
+            q = a
+            while getattr(q, "_parent", None) is not loop and getattr(q, "_parent", None) is not None:
+                q = q._parent
+            if isinstance(q, ast.If):
+                arms = []
+                cur = q
+                complete = False
+                while isinstance(cur, ast.If):
+                    arms.append(cur.body)
+                    if cur.orelse and not (len(cur.orelse) == 1 and isinstance(cur.orelse[0], ast.If)):
+                        arms.append(cur.orelse)
+                        complete = True
+                        break
+                    cur = cur.orelse[0] if cur.orelse else None
+                ok = complete and all(any(isinstance(x, ast.AugAssign) and isinstance(x.target, ast.Name) and x.target.id == var
+                                          for st_ in arm for x in ast.walk(st_)) for arm in arms)
+                if not ok:
+                    return Finding("violation", lkey + ":every iteration advances", a,
+                                   "`%s += ..` only runs under a condition: iterations that skip it leave the offset behind" % var,
+                                   "unconditional increment (or one in every arm)", pf.norm_expr(q.test)[:60])
+    return Finding("ok", lkey + ":every iteration advances", incs[0], "increment on every path")
+
+
 def _walk_start(fn, loop, var, env, lkey):
     """A walk over the 'q' / 's' blocks of a stacked cone vector whose offset is initialised,
     right before the loop, from `dims`: the start must be where the preceding blocks end
@@ -363,6 +407,9 @@ def analyze(fn, mod, qual=None):
         st_ = _walk_start(fn, loop, var, env, lkey)
         if st_ is not None:
             res.append(st_)
+        sk_ = _skipped_increment(loop, var, incs, lkey)
+        if sk_ is not None:
+            res.append(sk_)
         decided = []
         fills = []
         for node, what, shift, E, why in accesses:
